@@ -355,9 +355,20 @@ Op gen_self_contained_op(Rng& r, int id, bool crystal_catalogue) {
 // ------------------------------------------------------------------ crystals
 static std::string gen_name(Rng& r, int maxlen) {
   static const char cs[] = "ABCDEFGHIJKLMNOPQRSTUVWXYZabcdefghijklmnopqrstuvwxyz0123456789_-+.";
+  // a fifth of the names use the whole range a C string and a whitespace-delimited file token can hold: ASCII
+  // punctuation and bytes above 127 (UTF-8 letters as in "\xce\xb1-Quartz", "\xc3\x85kermanite"), also as first byte -
+  // orderings that treat char as signed, fold case or stop at punctuation only show on such names
+  static const char punct[] = "!$%&'()*,/:;<=>?@[]^`{|}~\"\\";
+  static const char* const utf8[] = {"\xce\xb1", "\xce\xb2", "\xce\xb3", "\xc3\x85", "\xc3\x96", "\xc3\xa9", "\xe2\x82\x82", "\xff", "\x80"};
+  bool rich = r.chance(1, 5);
   int n = r.chance(9, 10) ? r.range(1, std::min(maxlen, 12)) : r.range(1, maxlen);
   std::string s;
-  for (int i = 0; i < n; i++) s += cs[r.below(sizeof cs - 1)];
+  while ((int)s.size() < n) {
+    int k = rich ? (int)r.below(10) : 9;
+    if (k < 3) { const char* u = utf8[r.below(sizeof utf8 / sizeof utf8[0])]; if ((int)(s.size() + strlen(u)) <= n) s += u; else s += cs[r.below(sizeof cs - 1)]; }
+    else if (k < 5) s += punct[r.below(sizeof punct - 1)];
+    else s += cs[r.below(sizeof cs - 1)];
+  }
   if (s[0] == '#') s[0] = 'X';
   return s;
 }
@@ -493,7 +504,7 @@ std::string render_crystal_file(const FileSpec& fs, bool* wellformed, std::vecto
     std::string nm = d.name;
     if (hit && fs.mut == FM_LONG_NAME) { nm = std::string(25 + r.below(60), 'N') + nm; wf = false; }
     if (nm.empty() || nm.size() > 20 || nm.find_first_of(" \t\r\n\f\v") != std::string::npos) wf = false;
-    for (unsigned char ch : nm) if (ch < 33 || ch > 126) wf = false;
+    for (unsigned char ch : nm) if (ch < 33 || ch == 127) wf = false;   // any non-blank byte is a legal token character, also above 127
     d.name = nm;
     char b[256];
     if (hit && fs.mut == FM_BAD_S) { t += "#S notanumber"; t += nl; wf = false; }
@@ -641,6 +652,8 @@ void gen_history(Rng& r, const GenCfg& cfg, std::vector<Op>& out, int& next_id, 
   if (wq + wa + wc == 0) wa = 1;
   bool mod_builtin = cfg.allow_builtin_mod && !cfg.threadsafe_only && r.chance(1, 4);
   int n_arrays = 0;
+  Op pending;
+  bool have_pending = false;
   for (int k = 0; k < n; k++) {
     int id = next_id++;
     Op o;
@@ -801,7 +814,17 @@ void gen_history(Rng& r, const GenCfg& cfg, std::vector<Op>& out, int& next_id, 
     }
     if (cfg.alloc_faults && r.chance(1, 5)) o.fail = r.chance(2, 3) ? r.range(1, 4) : r.range(5, 30);
     ops.push_back(o);
+    // echo: the very same call again, at once (A, A) or after the next op (A, B, A).  State that is committed before a
+    // call has validated its arguments, or a one-entry memo, shows exactly when a call is repeated -- above all when the
+    // first one failed -- and independent draws almost never repeat a whole argument tuple.
+    if (have_pending) { pending.id = next_id++; ops.push_back(pending); have_pending = false; }
+    bool echoable = !o.keep && !o.fail && (o.kind == OK_Q || o.kind == OK_S2A || o.kind == OK_ATOMFAC || (o.selfc && o.kind != OK_CA_READ));
+    if (echoable && r.chance(1, 8)) {
+      if (r.chance(3, 5)) { Op e = o; e.id = next_id++; ops.push_back(e); }
+      else { pending = o; have_pending = true; }
+    }
   }
+  if (have_pending) { pending.id = next_id++; ops.push_back(pending); }
   // full release, random order
   std::vector<int> own;
   for (auto& h : st.hs) if (!h.shared) own.push_back(h.id);
